@@ -356,10 +356,11 @@ func partLagSenders(c *check.Ctx, a *acc) {
 	type sc struct {
 		flood, size int
 		sync        time.Duration
+		addressed   bool
 	}
-	scs := []sc{{2500, 10000, 0}, {4000, 6000, 25 * time.Millisecond}}
+	scs := []sc{{2500, 10000, 0, false}, {4000, 6000, 25 * time.Millisecond, true}, {2500, 10000, 0, true}}
 	if !c.Quick() {
-		scs = append(scs, sc{3000, 10240, 5 * time.Millisecond}, sc{8000, 3000, 0}, sc{2500, 10000, 100 * time.Millisecond}, sc{6000, 4000, 0})
+		scs = append(scs, sc{3000, 10240, 5 * time.Millisecond, false}, sc{8000, 3000, 0, true}, sc{2500, 10000, 100 * time.Millisecond, false}, sc{6000, 4000, 0, true}, sc{4000, 6000, 0, false})
 	}
 	var mu sync.Mutex
 	done, jammed := 0, 0
@@ -371,7 +372,7 @@ func partLagSenders(c *check.Ctx, a *acc) {
 			return
 		}
 		defer p.Kill()
-		out := e4.LagMixedTrial(p, scs[i].flood, scs[i].size)
+		out := e4.LagMixedTrial(p, scs[i].flood, scs[i].size, scs[i].addressed)
 		mu.Lock()
 		defer mu.Unlock()
 		done++
@@ -394,7 +395,7 @@ func partLagSenders(c *check.Ctx, a *acc) {
 	})
 	c.Coverage["lagging_member_several_senders_trials"] = done
 	c.Coverage["lagging_member_several_senders_jammed"] = jammed
-	a.add(done, jammed, "lagging member, several senders: one member stops reading until another member's custom relays fill the pipeline towards it (socket buffers + 512-entry send queue, the relaying handler waits for room); meanwhile a third member relays customs and adds an entity and a fourth moves its entity three times; the lagging member resumes; it and a steady member must have every relay exactly once in each sender's order, the latest pose, and a newcomer is handed that pose; non-trivial when the pipeline was observed full", samples...)
+	a.add(done, jammed, "lagging member, several senders: one member stops reading until another member's custom relays fill the pipeline towards it (socket buffers + 512-entry send queue, the relaying handler waits for room); the flood is a broadcast (the relayer waits under the session's participant lock) or addressed to the lagging and one other member (it waits outside it); meanwhile a third member relays customs, adds an entity and sends messages addressed to the lagging member and to a member that then leaves, a fourth moves its entity three times, a fifth switches to a session of its own, a sixth closes and an outsider creates a session (answered within 5 s, or the stall is blamed if it is answered right after); the lagging member resumes; it and a steady member must have every relay exactly once in each sender's order, the latest pose, the addressed messages; the switcher gets nothing of the old session after its join answer; a newcomer is handed the latest pose; non-trivial when the pipeline was observed full", samples...)
 }
 
 // partSwitchPending: updates pending at a departure that follows a session
@@ -443,4 +444,43 @@ func partSwitchPending(c *check.Ctx, a *acc) {
 	})
 	c.Coverage["switch_pending_departure_trials"] = done
 	a.add(done, done, "switch, pending update, departure: a member of session A (kept alive by witnesses) switches to a session of its own, sends pose / component updates and departs (reset, close, one more switch) before the next frame (120 ms frames); after several frames of every session the process runs, A's and another session's members are served and relayed to, the leaver's session has ended and the gauges are back; two rounds per trial", samples...)
+}
+
+// partBigSession: sessions with more members than any queue or batch in the
+// server is long (C13, C14, C02, C01).
+func partBigSession(c *check.Ctx, a *acc) {
+	bin, err := c.WS.Build("lab", "plain")
+	if err != nil {
+		c.Inconc("build failed: " + err.Error())
+		return
+	}
+	sizes := []int{140, 300}
+	if !c.Quick() {
+		sizes = append(sizes, 530, 700)
+	}
+	var mu sync.Mutex
+	done := 0
+	var samples []any
+	parallel(len(sizes), 2, func(i int) {
+		p, err := c.WS.StartLab(bin, sut.LabOpts{Name: "bigsession"})
+		if err != nil {
+			c.Inconc(err.Error())
+			return
+		}
+		defer p.Kill()
+		out := e4.BigSessionTrial(p, sizes[i])
+		mu.Lock()
+		defer mu.Unlock()
+		if out.Inconclusive != "" {
+			c.Inconc(out.Inconclusive)
+		} else {
+			done++
+		}
+		for _, f := range out.Findings {
+			c.Report(f)
+		}
+		samples = append(samples, map[string]any{"engine": "E4 big session", "members": out.Members, "recipients_checked_per_class": out.Checked})
+	})
+	c.Coverage["big_session_trials"] = done
+	a.add(done, done, "big sessions: 140 and 300 (thorough: also 530 and 700) members in one session, all subscribed to one component type; one member causes a component add and update, a pose update, a custom broadcast, a custom message addressed to everybody and one to every second member, an entity add; a newcomer joins and a member leaves; every other member has each message exactly as often as it must, and the newcomer is handed all participants", samples...)
 }
